@@ -57,3 +57,7 @@ claim("C13", "CFG dominance of reply guards, loop-exhaustion analysis of the ver
 claim("C17", "lockset dataflow, condition-variable wake-up rule, typestate of closed/conn, must-pass / branch-always path rules, field coverage of Equal",
       "Lock discipline of the session, wake-ups after predicate changes, no dial/store after close, ASN refusal, abort on every failed send, the pending set is never dropped, full re-send before the first wait, exact diff/withdraw construction, commit after both phases; decided on all paths. Convergence over all interleavings is not decided.",
       NOTE, "DESIGN.md section 5, C17")
+
+claim("C16", "writer/reader layout agreement from packed struct layouts, constant folding of the OPEN literal + RFC 4271 walk, attribute TLV size agreement, narrowing-conversion audit, bounded-decoder rule",
+      "Offsets patched into messages equal the layout of the struct written; OPEN option/capability lengths cover exactly their bytes; constant attribute headers match the size of the payload writes; every narrowing is checked; the OPEN decoder reads only through LimitedReaders bound to the announced lengths and cannot panic or spin. Decided for every input at once; the value-level round trip is not.",
+      NOTE, "DESIGN.md section 5, C16")
